@@ -348,6 +348,15 @@ Theorem C07_same_stream_fetch_refuted :
 Proof. exact ex_same_stream_fetch. Qed.
 Print Assumptions C07_same_stream_fetch_refuted.
 
+(* the offset -> unit map of iter_range_lists holds only units of the enumerated section's generation:
+   offsets into .debug_ranges and into .debug_rnglists are unrelated number spaces, and a unit of the
+   other generation neither supplies nor masks (by a numerically equal offset) a list of this one *)
+Theorem C07_range_refs_generation : forall S ver5 cus refs,
+  range_refs S ver5 cus = Ok refs ->
+  forall o cv, In (o, cv) refs -> In cv cus /\ (5 <=? cv_version cv) = ver5.
+Proof. exact range_refs_generation. Qed.
+Print Assumptions C07_range_refs_generation.
+
 (* ================================================================== classification *)
 (* finite sweep: versions 2..5 x every name of ENUM_DW_AT x every name of ENUM_DW_FORM *)
 Theorem C07_classification : forall v n f c,
